@@ -61,6 +61,10 @@ package res
 //@   ensures nomatch: imp(!ok, isNil(m))
 //@   # a '>' that is not the last character is excluded by the grammar
 //@   dead return3
+//@   # every entry of the result: the key is the text of a $-token of the pattern (without the $), the value is the name's text
+//@   # from the position reached to the end of that token of the name
+//@   ghost mapupdate m#1 before :: assert entry.key: 1 <= po && po <= pi && pi <= pl && p[po-1] == '$' && tokStart(string(p), po-1) && pi == tokEnd(string(p), po) && len(arg_key) == pi - po && forall(k, 0, pi - po, arg_key[k] == p[po+k])
+//@   ghost mapupdate m#1 before :: assert entry.value: 0 <= so && so <= si && si <= sl && si == tokEnd(s, so) && len(arg_value) == si - so && forall(k, 0, si - so, arg_value[k] == s[so+k])
 //@   loop 1 invariant 0 <= pi && pi <= pl && 0 <= si && si <= sl && pl == len(p) && sl == len(s)
 //@   loop 1 invariant hd: pi == pl || tokStart(string(p), pi) || p[pi] == '.'
 //@   loop 1 invariant carry: pmatch(string(p), s, 0, 0) == pmatch(string(p), s, pi, si)
